@@ -75,6 +75,8 @@ class Profile:
         constexpr_pct=0,
         spin_cycle_pct=0,
         split_init=0,
+        loop_local_pct=0,
+        dup_args_pct=0,
     ):
         self.__dict__.update(locals())
         del self.__dict__["self"]
@@ -463,9 +465,14 @@ class _FuncGen:
             self.wrap_tailrec(fn)
         if prof.spin_cycle_pct and "i32" in self.types and self.chance(prof.spin_cycle_pct):
             self.add_spin_cycle(fn)
+        if prof.loop_local_pct and "i32" in self.types and self.chance(prof.loop_local_pct):
+            self.add_loop_local(fn)
         order = list(range(len(fn["blocks"])))
         if prof.permute_blocks and len(order) > 2 and self.chance(50):
-            rest = draw(st.permutations(order[1:]))
+            if self.chance(30):
+                rest = list(reversed(order[1:]))  # every value of a dominating non-entry block is referenced before its definition
+            else:
+                rest = draw(st.permutations(order[1:]))
             order = [0] + list(rest)
         fn["layout"] = order
         if not prof.mixed_zero_signs:
@@ -922,6 +929,14 @@ class _FuncGen:
                 args.append(n)
             else:
                 args.append(self.value_of(ty, pool, out))
+        if prof.dup_args_pct and self.chance(prof.dup_args_pct):
+            # the same value in two argument positions (every use of a value has to be found when it is replaced or,
+            # in the readers, patched after a forward reference)
+            same = [(i, j) for i in range(len(ptys)) for j in range(i + 1, len(ptys)) if ptys[i] == ptys[j] and ptys[i] != "ptr"
+                    and not (kind == "fn" and f.get("tailrec") and i == 0)]
+            if same:
+                i, j = self.pick(same)
+                args[j] = args[i]
         rty = f["ret"]
         if rty is None:
             out.append(["call", None, None, callee, args])
@@ -980,6 +995,45 @@ class _FuncGen:
         blk["ins"] = blk["ins"][:-1] + [["load", fu, "i32", fuel, False], ["const", neg, "i32", -1000000], ["cjmp", fu, "<", neg, names[0], target]]
         for i in range(k):
             fn["blocks"].append({"name": names[i], "ins": [["jmp", names[(i + 1) % k]]]})
+
+    def add_loop_local(self, fn):
+        """P: jmp T  ==>  a counted loop between P and T whose HEADER allocates a promotable slot that is written on one arm
+        and read after the join ('for (..) { int x; if (c) x = i; use(x); }').  Statically the slot is read on a path
+        without a write (mem2reg needs a phi for it at the loop header, fed from outside the loop by its 'undefined'
+        initial value); at run time the writing arm is always taken (the other is guarded by fuel < -1000000)."""
+        cands = [b for b in fn["blocks"] if b["ins"] and b["ins"][-1][0] == "jmp"]
+        if not cands:
+            return
+        blk = self.pick(cands)
+        pname, target = blk["name"], blk["ins"][-1][1]
+        if target == pname:
+            return
+        n = lambda s: "%s_l%s" % (self.name, s)  # noqa: E731
+        if any(b["name"] == n("h") for b in fn["blocks"]):
+            return
+        f = self.fresh
+        c3, i, i2, a, ap, fu, neg, x, one, zero = f("c"), f("li"), f("li"), f("a"), f("ap"), f("fu"), f("c"), f("lx"), f("c"), f("c")
+        fuel = self.mod.fuel_global()
+        trips = self.pick([1, 2, 3])
+        blk["ins"] = blk["ins"][:-1] + [["const", c3, "i32", trips], ["jmp", n("h")]]
+        head = {"name": n("h"), "ins": [["phi", i, "i32", {pname: c3, n("j"): i2}], ["alloc", a, 4, 4], ["addr", ap, a],
+                                          ["load", fu, "i32", fuel, False], ["const", neg, "i32", -1000000],
+                                          ["cjmp", fu, "<", neg, n("s"), n("t")]]}
+        skip = {"name": n("s"), "ins": [["jmp", n("j")]]}
+        then = {"name": n("t"), "ins": [["store", i, ap, False], ["jmp", n("j")]]}
+        tmp = [["load", x, "i32", ap, False]]
+        if self.prof.observe:
+            self.observe(x, "i32", {}, tmp)
+        join = {"name": n("j"), "ins": tmp + [["const", one, "i32", 1], ["binop", i2, "i32", i, "-", one], ["const", zero, "i32", 0],
+                                                ["cjmp", i2, ">", zero, n("h"), target]]}
+        for b in fn["blocks"]:
+            if b["name"] == target:
+                for ins in b["ins"]:
+                    if ins[0] != "phi":
+                        break
+                    if pname in ins[3]:
+                        ins[3][n("j")] = ins[3].pop(pname)
+        fn["blocks"] += [head, skip, then, join]
 
     def wrap_tailrec(self, fn):
         """entry: n <= 0 ? base : body ... last block: r = call self(n-1, ...); return r"""
@@ -1079,6 +1133,10 @@ class _ModGen:
                 cands.append({"name": "ext_l", "args": ["i32", "i64"], "ret": "i64"})
             if "u8" in types and "i16" in types:
                 cands.append({"name": "ext_s", "args": ["u8", "i16"], "ret": "u8"})
+            if prof.dup_args_pct and "i32" in types:
+                cands.append({"name": "ext_d", "args": ["i32", "i32"], "ret": "i32"})
+                if "i64" in types:
+                    cands.append({"name": "ext_q", "args": ["i64", "i32", "i64"], "ret": None})
             for c in cands:
                 if draw(st.integers(0, 99)) < 40:
                     self.externals.append(c)
